@@ -128,7 +128,8 @@ inline std::string g_ipvfuture(Tape &t) {
 // host text as it appears in the URI (with brackets for literals); kind: 1 reg 2 ip4 3 ip6 4 future
 inline std::string g_host(Tape &t, int *kind = nullptr) {
   static const std::vector<std::string> regs = {"h", "example.com", "EXAMPLE.org", "Host", "a.b", "256.1.1.1", "01.2.3.4",
-                                                "1.2.3", "1.2.3.4.5", "1.2.3.4a", "ex%41mple", "ex%c3%a4", "h%3a", "x-y_z~", "v1.a", "vF.x"};
+                                                "1.2.3", "1.2.3.4.5", "1.2.3.4a", "ex%41mple", "ex%c3%a4", "h%3a", "x-y_z~", "v1.a", "vF.x",
+                                                "%31.2.3.4", "1%2E2.3.4", "10.0.0.%32%35%35", "%32%35%36.1.1.1"};  // dotted quads only after percent-decoding
   int k = t.weighted({6, 2, 3, 3, 1});
   int kk = 1;
   std::string s;
